@@ -275,5 +275,5 @@ def run_shard(ctx, rec):
     drive(ctx, rec, "model", model_cases(), check_model, ctx.n(2000, 60000))
     # a slice dense in the commands that weigh their inputs (a zero weight must not hide an input's missing cells)
     drive(ctx, rec, "model", model_cases(["CvtToFuzzy", "FuzzyWeightedUnion", "WeightedSum", "WeightedMean", "FuzzyNot", "Copy"]), check_model,
-          ctx.n(500, 10000), tag="model/weighted")
+          ctx.n(1500, 20000), tag="model/weighted")
     drive_enum(ctx, rec, "deep", deep_cases(ctx), check_deep, exhaustive=True)
